@@ -383,18 +383,36 @@ class BuildError(Exception):
 WIDTH = {"u8": 1, "bool": 1, "u16": 2, "u32": 4, "usize": 8, "u64": 8}
 
 
+_SRC = {}
+
+
+def _src_line(path, n):
+    if path not in _SRC:
+        try:
+            _SRC[path] = open(path).read().splitlines()
+        except OSError:
+            _SRC[path] = []
+    ls = _SRC[path]
+    return ls[n - 1] if 0 < n <= len(ls) else ""
+
+
 def parse_trace_tape(text):
     """The ordered list of values drawn through /verif/harness/*/sym.rs in a CBMC plain-text trace.
     Every draw is a local named draw_<type> inside a function of the `sym` module."""
     tape = []
     cur_fn = None
+    cur_ok = False
     for line in text.splitlines():
         if line.startswith("State "):
             m = re.search(r" function (\S+)", line)
             cur_fn = m.group(1) if m else None
+            # only the assignment at the `let draw_..` line counts: an unsliced trace also lists the
+            # declaration of the local (an arbitrary value, at the line of the function header)
+            mf = re.search(r" file (\S+) function \S+ line (\d+)", line)
+            cur_ok = bool(mf) and "let draw_" in _src_line(mf.group(1), int(mf.group(2)))
             continue
         m = re.match(r"^\s+draw_(\w+)=(.*)$", line)
-        if not m or not cur_fn or "::sym::" not in cur_fn:
+        if not m or not cur_fn or "::sym::" not in cur_fn or not cur_ok:
             continue
         ty, rest = m.group(1), m.group(2).strip()
         if ty == "bytes":
@@ -429,16 +447,20 @@ def extract_tapes(scratch, symtab, name, unwind, prop_ids, logdir, timeout_s=120
     extra_cbmc = list(extra_cbmc) + unwindset_args(goto, unwind_rules)
     try:
         for pid in prop_ids[:3]:
-            args = ["cbmc"] + CBMC_FLAGS + ["--unwind", str(unwind), "--trace", "--property", pid] + list(extra_cbmc) + [goto]
-            try:
-                out = subprocess.run(args, capture_output=True, text=True, timeout=timeout_s).stdout
-            except subprocess.TimeoutExpired:
-                continue
-            if "VERIFICATION FAILED" not in out:
-                continue
-            t = parse_trace_tape(out)   # may be empty: a harness without symbolic draws
-            if t not in tapes:
-                tapes.append(t)
+            # no --slice-formula here: the slicer removes the draws the failed assertion does not depend
+            # on from the trace, and the tape would be misaligned (the sliced run is only the fallback)
+            for flags in ([f for f in CBMC_FLAGS if f != "--slice-formula"], CBMC_FLAGS):
+                args = ["cbmc"] + flags + ["--unwind", str(unwind), "--trace", "--property", pid] + list(extra_cbmc) + [goto]
+                try:
+                    out = subprocess.run(args, capture_output=True, text=True, timeout=timeout_s).stdout
+                except subprocess.TimeoutExpired:
+                    continue
+                if "VERIFICATION FAILED" not in out:
+                    continue
+                t = parse_trace_tape(out)   # may be empty: a harness without symbolic draws
+                if t not in tapes:
+                    tapes.append(t)
+                break
     finally:
         try:
             os.remove(goto)
